@@ -406,11 +406,11 @@ func (r *gring) Locations(d core.Digest) []string {
 	}
 	return []string{selfAddr}
 }
-func (r *gring) Contains(addr string) bool        { return addr == selfAddr }
+func (r *gring) Contains(addr string) bool         { return addr == selfAddr }
 func (r *gring) WaitForContains(addr string) error { return nil }
-func (r *gring) Members() stringset.Set           { return stringset.New(selfAddr) }
-func (r *gring) Monitor(stop <-chan struct{})     { <-stop }
-func (r *gring) Refresh()                         {}
+func (r *gring) Members() stringset.Set            { return stringset.New(selfAddr) }
+func (r *gring) Monitor(stop <-chan struct{})      { <-stop }
+func (r *gring) Refresh()                          {}
 
 // FileOp decorator for the cleanup pass
 type gop struct {
@@ -478,22 +478,22 @@ type blob struct {
 }
 
 type node struct {
-	c    *ctl
-	dir  string
-	clk  *clock.Mock
-	cap  int
-	nss  []string
+	c     *ctl
+	dir   string
+	clk   *clock.Mock
+	cap   int
+	nss   []string
 	blobs []blob
-	bs   *bstore
-	cur  *atomic.Pointer[gen]
+	bs    *bstore
+	cur   *atomic.Pointer[gen]
 
-	g    *gen
-	db   *sqlx.DB
-	cas  *store.CAStore
+	g        *gen
+	db       *sqlx.DB
+	cas      *store.CAStore
 	casClose func()
-	mgr  persistedretry.Manager
-	srv  *httptest.Server
-	cl   *http.Client
+	mgr      persistedretry.Manager
+	srv      *httptest.Server
+	cl       *http.Client
 }
 
 func tmpBase() string {
